@@ -44,6 +44,10 @@ func main() {
 		return
 	}
 	id, tier := os.Args[1], os.Args[2]
+	if tier == "replay" && len(os.Args) > 3 {
+		runReplay(id, os.Args[3])
+		return
+	}
 	if tier != "quick" && tier != "thorough" {
 		fmt.Println("tier must be quick or thorough")
 		os.Exit(2)
